@@ -6,6 +6,7 @@ mod helpers;
 mod inventory;
 mod datatype;
 mod hashiter;
+mod iterinj;
 
 #[macro_export]
 macro_rules! shape_changed {
@@ -41,6 +42,7 @@ fn main() {
         "GenInventory" => inventory::generate(&a[2], &a[3]),
         "GenDataTypeConv" => datatype::generate(&a[2], &a[3]),
         "GenHashIter" => hashiter::generate(&a[2], &a[3]),
+        "GenIterInj" => iterinj::generate(&a[2], &a[3]),
         other => { eprintln!("unknown generator {other}"); std::process::exit(2) }
     }
 }
